@@ -2,6 +2,7 @@ package legs
 
 import (
 	"fmt"
+	"os"
 	"strings"
 
 	"rvharness/internal/core"
@@ -215,6 +216,10 @@ func c03ScanCheck(c *core.Ctx, cases []engCase) []core.Outcome {
 
 func init() {
 	core.Register("C03", func(c *core.Ctx) {
+		if os.Getenv("C03_ONLY") == "Ix" { // development aid: leg Ix alone
+			c03RegisterIx(c)
+			return
+		}
 		g := &engGen{allowRTL: true, perPat: 8, maxLen: 12, rawInput: true, biasFind: true, biasRewrite: true}
 		core.RunLeg(c, core.Leg[engCase]{
 			Name: "N", Kind: "oracle(naive-scan)",
@@ -240,6 +245,8 @@ func init() {
 		})
 		// leg Bm (c03bm.go): the Boyer-Moore prefix against its model and a naive search
 		c03RegisterBm(c, 1)
+		// leg Ix (c03indexof.go): the rune-slice searches of helpers/indexof.go against their mirrors and a naive search
+		c03RegisterIx(c)
 		// leg Sf (strfilter.go): the raw-string prefix filters (a quarter of C02's cases)
 		sfRegister(c, 4)
 		// leg L (c04loops.go): landmark chain / literal after the leading loop (a fifth of C04's cases)
